@@ -6,7 +6,7 @@ computer was observed to request from its bank, explicit windowed integration).
 """
 import numpy as np
 
-from .. import compmon, gen, monitor
+from .. import sanit, compmon, gen, monitor
 from ..common import rng_for, split
 from ..oracle import si_ref as R
 from ..oracle.stft_ref import compare_features
@@ -210,6 +210,9 @@ def run_shard(spec, rec):
         from .. import suite
 
         return suite.run(__name__.rsplit(".", 1)[-1], spec, rec)
+    import pydrobert.speech.compute as _sut
+
+    sanit.install([_sut])  # poison-fill sanitizer: np.empty results are pre-filled with NaN while this shard runs
     mon = SiMonitor(rec)
     mon.attach()
     if "realistic" in spec:
@@ -220,6 +223,8 @@ def run_shard(spec, rec):
         return
     for i in range(spec["a"], spec["b"]):
         run_case({"idx": i, "seed": spec["seed"], "cfg": make_cfg(spec["seed"], i)}, rec, mon)
+    rec.count("sanitizer_np_empty_intercepted", sanit.COUNTS["empty"] + sanit.COUNTS["empty_like"])
+    sanit.uninstall([_sut])
     monitor.report(rec)
     monitor.detach_all()
 
